@@ -1,3 +1,128 @@
-(* C42 — futures (under construction) *)
-From Coq Require Import List NArith.
+(* C42 — Futures complete once and run every callback exactly once.
+   Only statements and `exact`; the proofs are in Proofs/C42.v.
+
+   Setting of every theorem: [nfut] futures, goroutine i is to perform the API calls [progs_i]
+   (ThenAccept / Complete / ThenCompose of Model/Future.v) one after the other; [ts] is ANY list of
+   threads all of whose atomic actions are [tick t] for some goroutine t (one step of that
+   goroutine's call stack: enter a critical section, invoke one callback, unlock; a step that
+   needs a held mutex does nothing), and [sched] is ANY schedule of them (Base.Conc.run).  This
+   covers every interleaving of the calls at the granularity of single critical-section entries,
+   which is finer than "each method is one atomic action". *)
+From Coq Require Import List NArith Arith Bool.
 From Verif Require Import Base.Conc Model.Future Proofs.C42.
+Import ListNotations.
+
+(* "A future's value is fixed by its first completion": for every future, the completions that
+   took effect are exactly one (carrying the final value) if it is completed and none otherwise —
+   later Complete calls change nothing — and every log callback that ran saw that value. *)
+Theorem C42_first_wins :
+  forall nfut progs (ts : list (@thread state event)) sched f,
+  (forall a, In a (concat ts) -> exists t, a = tick t) ->
+  let r := run ts sched (init nfut progs) in
+  completions f (events r) = match value_of (final_state r) f with Some v => [v] | None => [] end
+  /\ forall c w, In (ERun f c w) (events r) -> value_of (final_state r) f = Some w.
+Proof. exact first_wins_all. Qed.
+Print Assumptions C42_first_wins.
+
+(* ... and the value, once set, survives whatever runs afterwards, from any state. *)
+Theorem C42_value_stable :
+  forall (ts : list (@thread state event)) sched s f v,
+  (forall a, In a (concat ts) -> exists t, a = tick t) ->
+  value_of s f = Some v -> value_of (final_state (run ts sched s)) f = Some v.
+Proof. exact value_stable_all. Qed.
+Print Assumptions C42_value_stable.
+
+(* "every callback registered before or after completion runs exactly once with that value":
+   at any moment a callback (f, c) has run at most as often as the programs register it; when all
+   goroutines have returned it has run exactly that often if f is completed (and not at all if f
+   is not).  "With that value" is the second half of C42_first_wins. *)
+Theorem C42_callback_exactly_once :
+  forall nfut progs (ts : list (@thread state event)) sched f c,
+  (forall a, In a (concat ts) -> exists t, a = tick t) ->
+  let r := run ts sched (init nfut progs) in
+  runs_count f c (events r) <= registrations f c progs
+  /\ (quiescent (final_state r) = true ->
+      match value_of (final_state r) f with
+      | Some _ => runs_count f c (events r) = registrations f c progs
+      | None => runs_count f c (events r) = 0
+      end).
+Proof. exact callback_exactly_once_all. Qed.
+Print Assumptions C42_callback_exactly_once.
+
+(* "a chain of composed futures completes in chain order": if the futures returned by ThenCompose
+   are completed by nobody else (they are distinct, no program calls Complete on one, no composed
+   user function completes one), then for every out = ThenCompose(f, u) the completion of out
+   comes after the completion of f and after the completion of the future u returned, and
+   carries that future's value. *)
+Theorem C42_chain_order :
+  forall nfut progs (ts : list (@thread state event)) sched,
+  (forall a, In a (concat ts) -> exists t, a = tick t) ->
+  NoDup (outs progs)
+  /\ (forall f v, In (Complete f v) (concat progs) -> ~ In f (outs progs))
+  /\ (forall f g add o, In (ThenCompose f (UCompleting g add) o) (concat progs) -> ~ In g (outs progs)) ->
+  let evs := events (run ts sched (init nfut progs)) in
+  forall f u out, In (ThenCompose f u out) (concat progs) ->
+  forall n w, nth_error evs n = Some (ESet out w) ->
+    (exists m v, m < n /\ nth_error evs m = Some (ESet f v))
+    /\ (exists m, m < n /\ nth_error evs m = Some (ESet (inner u) w)).
+Proof. exact chain_order_all. Qed.
+Print Assumptions C42_chain_order.
+
+(* Two links: f0 -> f1 = ThenCompose(f0, _) -> f2 = ThenCompose(f1, _) complete in that order. *)
+Theorem C42_chain_of_two :
+  forall nfut progs (ts : list (@thread state event)) sched,
+  (forall a, In a (concat ts) -> exists t, a = tick t) ->
+  NoDup (outs progs)
+  /\ (forall f v, In (Complete f v) (concat progs) -> ~ In f (outs progs))
+  /\ (forall f g add o, In (ThenCompose f (UCompleting g add) o) (concat progs) -> ~ In g (outs progs)) ->
+  let evs := events (run ts sched (init nfut progs)) in
+  forall f0 u1 f1 u2 f2,
+  In (ThenCompose f0 u1 f1) (concat progs) -> In (ThenCompose f1 u2 f2) (concat progs) ->
+  forall n2 w2, nth_error evs n2 = Some (ESet f2 w2) ->
+    exists n1 w1 n0 w0, n0 < n1 /\ n1 < n2
+      /\ nth_error evs n1 = Some (ESet f1 w1) /\ nth_error evs n0 = Some (ESet f0 w0).
+Proof. exact chain_of_two_all. Qed.
+Print Assumptions C42_chain_of_two.
+
+(* Outside the property, recorded: a callback that calls into the future whose callbacks are
+   being run blocks for ever (sync.Mutex is not re-entrant); the goroutine makes no step. *)
+Theorem C42_reentrant_stuck :
+  forall t s f rest fu fr,
+  nth_error (stacks s) t = Some (fr :: rest) ->
+  (exists k, fr = FAccept f k) \/ (exists v, fr = FComplete f v) ->
+  In (FUnlock f) rest ->
+  nth_error (heap s) f = Some fu -> locked fu = true ->
+  tick t s = (s, []).
+Proof. exact reentrant_no_progress. Qed.
+Print Assumptions C42_reentrant_stuck.
+
+(* ---------- the premises are met: concrete programs ---------- *)
+
+(* Two goroutines race to complete future 0 (values 5 and 6), one registers a callback before, the
+   other after.  Over ALL 924 schedules of 6+6 ticks: at most one completion took effect and each
+   callback ran at most once; in every schedule in which both goroutines have returned, exactly
+   one completion took effect and both callbacks ran exactly once; such schedules exist. *)
+Example C42_nonvacuous_all_schedules :
+  let progs := [[ThenAccept 0 1%N; Complete 0 5%N]; [Complete 0 6%N; ThenAccept 0 2%N]] in
+  let outs_ := outcomes [repeat (tick 0) 6; repeat (tick 1) 6] (init 1 progs) in
+  forallb (fun r =>
+     let s := final_state r in let evs := events r in
+     (runs_count 0 1%N evs <=? 1) && (runs_count 0 2%N evs <=? 1) && (length (completions 0 evs) <=? 1)
+     && (negb (quiescent s)
+         || ((runs_count 0 1%N evs =? 1) && (runs_count 0 2%N evs =? 1)
+             && (length (completions 0 evs) =? 1)))) outs_
+  && existsb (fun r => quiescent (final_state r)) outs_
+  && (length outs_ =? 924) = true.
+Proof. exact nv_check_ok. Qed.
+
+(* A two-link chain 0 -> 2 -> 4 (inner futures 1 and 3) that satisfies the premises of
+   C42_chain_order and whose links do complete, in order, with the inner futures' values. *)
+Example C42_nonvacuous_chain :
+  let progs := [[ThenCompose 0 (UExisting 1) 2; ThenCompose 2 (UCompleting 3 10%N) 4; Complete 1 7%N];
+                [Complete 0 3%N]] in
+  (NoDup (outs progs)
+   /\ (forall f v, In (Complete f v) (concat progs) -> ~ In f (outs progs))
+   /\ (forall f g add o, In (ThenCompose f (UCompleting g add) o) (concat progs) -> ~ In g (outs progs)))
+  /\ events (run [repeat (tick 0) 6; repeat (tick 1) 20] (repeat 0 6 ++ repeat 1 20) (init 5 progs))
+     = [ESet 1 7%N; ESet 0 3%N; ESet 2 7%N; ESet 3 17%N; ESet 4 17%N].
+Proof. exact chain_example_ok. Qed.
